@@ -3664,7 +3664,7 @@ class PyCdlib:
                 # that corresponds to this record.  If the UDF File Ident exists,
                 # and the File Entry is None, this means that it is an "zeroed"
                 # UDF File Entry and we have to remove it by hand.
-                self._rm_udf_file_ident(udf_file_ident.parent, udf_file_ident.fi)
+                num_bytes_to_remove += self._rm_udf_file_ident(udf_file_ident.parent, udf_file_ident.fi)
                 # We also have to remove the "zero" UDF File Entry, since nothing
                 # else will.
                 num_bytes_to_remove += self.logical_block_size
